@@ -111,3 +111,16 @@ def train_kinds(case):
             if trs[a] == trs[b] and trs[a]:
                 labels.add("identical_trains")
     return labels
+
+
+def mrts_exact(case, pool=None):
+    """the MRTS of a case as an exact number: Fraction, or - for 'auto' - the
+    exact root mean square of the pooled ISI lengths of the trains with the
+    given indices (default: all trains of the case)"""
+    m = case.get("mrts")
+    if m == "auto":
+        trs, T0, T1 = fr_trains(case)
+        if pool is not None:
+            trs = [trs[k] for k in pool]
+        return O.default_thresh_exact(trs, T0, T1)
+    return Fr(m or 0)
